@@ -450,7 +450,7 @@ theorem ps_recover264 (cfg : Cfg) (hc : RoundCfg cfg) (hp : cfg.psUntilReady264 
     have h87 : ¬ ((8 : UInt8) = 7) := by decide
     simp only [vRun, vStep, h264Step, hl1, hl2, if_false, hb, hcc, h7, h8, if_true, h264WriteFrame, h712, h812, h87,
       hp, hr', Bool.not_false, Bool.and_true, Bool.or_true, Bool.true_and]
-    cases hw : st.vmeta.widthKnown <;> cases hpe : st.vmeta.pps.isEmpty <;>
-      simp [h264MetaReady, hw, hpe, hok, hr', hp]
+    cases hw : st.vmeta.widthKnown <;> cases hpe : st.vmeta.pps.isEmpty <;> cases hse : st.vmeta.sps.isEmpty <;>
+      simp [h264MetaReady, hw, hpe, hse, hok, hr', hp]
 
 end IpcHub.DepackRound
